@@ -113,13 +113,17 @@ Value(raise) ==
     /\ UNCHANGED <<h, track, clk>>
 
 \* holdings_weights(): values the account (hence marks it to market) and reports notional / NLV per contract
-WeightsQ ==
-    /\ "weights" \in Ops
+\* context(): the same valuation, reporting NLV, weights, notional values, positions and margins in one snapshot
+ProjQ(tag) ==
+    /\ tag \in Ops
     /\ \E r \in {ValueF(st, TRUE)} :
            /\ st' = r.st
-           /\ Log([op |-> "weights", c |-> "-", x |-> "-", y |-> "-", out |-> r.out, nlv |-> r.nlv,
-                   w |-> IF r.out = "ok" THEN [c \in C |-> Div(Notional(r.st, c), r.nlv)] ELSE <<>>])
+           /\ Log([op |-> tag, c |-> "-", x |-> "-", y |-> "-", out |-> r.out, nlv |-> r.nlv,
+                   w |-> IF r.out = "ok" THEN [c \in C |-> Div(Notional(r.st, c), r.nlv)] ELSE <<>>,
+                   val |-> IF r.out = "ok" THEN [c \in C |-> Notional(r.st, c)] ELSE <<>>])
     /\ UNCHANGED <<h, track, clk>>
+WeightsQ == ProjQ("weights")
+ContextQ == ProjQ("context")
 
 \* the rebalancing path: trades are built by the library from the exchange's current quotes
 DoRebalance(req, dt, tag, prepared) ==
@@ -189,6 +193,7 @@ Next ==
              \/ MarkAll
              \/ \E r \in BOOLEAN : Value(r)
              \/ WeightsQ
+             \/ ContextQ
              \/ \E tgt \in LotTargets, dt \in Steps : Lots(tgt, dt)
              \/ \E req \in Reqs, dt \in Steps : Rebal(req, dt)
              \/ \E dt \in Steps \cup {0}, a \in BOOLEAN : Accrue(dt, a)
@@ -229,7 +234,7 @@ QuoteDelta ==
 
 \* valuation, marking and failed operations never move value
 Neutral ==
-    [][ (last'.op \in {"mark", "markall", "value", "query", "weights"} /\ Valuable(st)) => NlvOf(st') = NlvOf(st) ]_vars
+    [][ (last'.op \in {"mark", "markall", "value", "query", "weights", "context"} /\ Valuable(st)) => NlvOf(st') = NlvOf(st) ]_vars
 
 -----------------------------------------------------------------------------
 \* C05  margin account
@@ -240,7 +245,7 @@ MarginOk(s, c) ==
 
 \* observation points: after a valuation / a full mark all contracts, after a trade the traded one
 MarginInv ==
-    /\ (last.op \in {"value", "markall", "rebalance", "weights"} /\ last.out \in {"ok", "broke"} /\ Valuable(st))
+    /\ (last.op \in {"value", "markall", "rebalance", "weights", "context"} /\ last.out \in {"ok", "broke"} /\ Valuable(st))
           => \A c \in C : MarginOk(st, c)
     /\ (last.op = "trade" /\ last.out = "ok") => MarginOk(st, last.c)
     /\ (last.op = "mark" /\ Liq(st, last.c) # NaN /\ st.ref[last.c] # None) => MarginOk(st, last.c)
